@@ -147,3 +147,43 @@ Proof.
   rewrite IH; [cbn [blen]; f_equal; lia|intros c' H; apply Hq; right; exact H|].
   intros a b E Hb. apply (Hn (c :: a) b); [cbn; rewrite E; reflexivity|exact Hb].
 Qed.
+
+(** ---------- the braces of a rule block (repairs 631953a): the block ends at the first `}` outside string literals, the
+    attributes at the first `{` outside string literals - both are [find_outside] with a one-character pattern ---------- *)
+Lemma find_out_char_through c : is_quote c = false -> forall p q rest off, nosep_q c p q = true ->
+  find_out [c] (p ++ rest) q off = find_out [c] rest (scan q p) (off + blen p).
+Proof.
+  intros Hc. induction p as [|x p IH]; intros q rest off H; [cbn; f_equal; lia|].
+  cbn [app find_out nosep_q scan fold_left blen] in *. destruct q as [y|].
+  - rewrite (IH _ _ _ H). f_equal. lia.
+  - apply andb_true_iff in H as [Hx H]. apply negb_true_iff in Hx. cbn [qstep] in *.
+    destruct (is_quote x) eqn:Q.
+    + rewrite (IH _ _ _ H). f_equal. lia.
+    + cbn [starts_with]. rewrite (Z.eqb_sym c x), Hx. cbn [andb]. rewrite (IH _ _ _ H). f_equal. lia.
+Qed.
+
+Theorem brace_found_after_piece : forall c p rest, is_quote c = false -> piece_ok c p ->
+  find_outside (p ++ c :: rest) [c] = Some (blen p).
+Proof.
+  intros c p rest Hc [Hs Hn]. unfold find_outside. rewrite (find_out_char_through c Hc p None (c :: rest) 0 Hn), Hs.
+  cbn [find_out]. rewrite Hc. cbn [starts_with]. rewrite Z.eqb_refl. cbn [andb].
+  assert (E : starts_with rest [] = true) by (destruct rest; reflexivity). rewrite E. reflexivity.
+Qed.
+
+(** ---------- split_when_then (repair fded141): a string literal of the conditions is opaque to the search for `then` ---------- *)
+Lemma scan_then_inside x : forall content rest acc, ~ In x content ->
+  scan_then (content ++ x :: rest) (Some x) acc false = scan_then rest None (x :: rev content ++ acc) false.
+Proof.
+  induction content as [|c r IH]; intros rest acc H; cbn [app scan_then qstep rev].
+  - rewrite Z.eqb_refl. reflexivity.
+  - destruct (c =? x) eqn:E; [apply Z.eqb_eq in E; exfalso; apply H; left; exact E|].
+    rewrite IH by (intros Hin; apply H; right; exact Hin). rewrite <- app_assoc. reflexivity.
+Qed.
+
+Theorem scan_then_through_literal : forall x content rest acc first, is_quote x = true -> ~ In x content ->
+  scan_then (literal x content ++ rest) None acc first = scan_then rest None (rev (literal x content) ++ acc) false.
+Proof.
+  intros x content rest acc first Hx Hc. unfold literal. cbn [app scan_then]. rewrite Hx.
+  rewrite <- app_assoc. cbn [app]. rewrite (scan_then_inside x content rest (x :: acc) Hc).
+  cbn [rev]. rewrite rev_app_distr. cbn [rev app]. rewrite <- !app_assoc. reflexivity.
+Qed.
